@@ -225,10 +225,12 @@ class OnlineVariance(object):
         
 
         mean_old = self.mean
-        try:
-            self.mean = mean_old + (weight / self.wcount) * (value - mean_old)
-        except ZeroDivisionError:
+        if self.wcount == 0:
+            # Only zero weights so far. Test the value: 0/0 raises
+            # ZeroDivisionError for python floats only, numpy gives NaN
             self.mean = value*0.0
+        else:
+            self.mean = mean_old + (weight / self.wcount) * (value - mean_old)
         self.M2 += weight * (value - mean_old) * (value - self.mean)
 
     @property
